@@ -18,8 +18,51 @@ use crate::iter::*;
 use crate::view::*;
 use crate::ops::*;
 
-/// DrainRow type alias for future-proofing.
-pub type DrainRow<'a, T> = Drain<'a, T>;
+/// Drains a row.
+///
+/// Wraps `Vec`'s `Drain` so that the array's dimensions stay consistent with its `Vec` even if
+/// the drain is leaked (e.g. with `mem::forget`), in which case only the rows before the removed
+/// row remain in the array.
+#[derive(Debug)]
+pub struct DrainRow<'a, T> {
+    iter: Drain<'a, T>,
+    num_cols: &'a mut usize,
+    num_rows: &'a mut usize,
+    /// The array's dimensions once the drain has been dropped
+    final_cols: usize,
+    final_rows: usize,
+}
+
+impl<T> Iterator for DrainRow<'_, T> {
+    type Item = T;
+
+    #[inline]
+    fn next(&mut self) -> Option<T> {
+        self.iter.next()
+    }
+
+    #[inline]
+    fn size_hint(&self) -> (usize, Option<usize>) {
+        self.iter.size_hint()
+    }
+}
+
+impl<T> DoubleEndedIterator for DrainRow<'_, T> {
+    #[inline]
+    fn next_back(&mut self) -> Option<T> {
+        self.iter.next_back()
+    }
+}
+
+impl<T> ExactSizeIterator for DrainRow<'_, T> { }
+
+impl<T> Drop for DrainRow<'_, T> {
+    fn drop(&mut self) {
+        // The `Vec`'s length is restored when `self.iter` is dropped (straight after this).
+        *self.num_cols = self.final_cols;
+        *self.num_rows = self.final_rows;
+    }
+}
 
 /// IntoIter type alias for future-proofing.
 pub type IntoIterTooDee<T> = IntoIter<T>;
@@ -756,12 +799,21 @@ impl<T> TooDee<T> {
     {
         assert!(index < self.num_rows);
         let start = index * self.num_cols;
-        let drain = self.data.drain(start..start + self.num_cols);
-        self.num_rows -= 1;
-        if self.num_rows == 0 {
+        let final_rows = self.num_rows - 1;
+        let final_cols = if final_rows == 0 { 0 } else { self.num_cols };
+        let iter = self.data.drain(start..start + self.num_cols);
+        // While the drain is alive (or if it is leaked) the `Vec` only holds the rows before `index`.
+        self.num_rows = index;
+        if index == 0 {
             self.num_cols = 0;
         }
-        drain
+        DrainRow {
+            iter,
+            num_cols : &mut self.num_cols,
+            num_rows : &mut self.num_rows,
+            final_cols,
+            final_rows,
+        }
     }
 
     /// Removes the last column from the array and returns it as a `Drain`, or `None` if it is empty.
